@@ -257,6 +257,56 @@ fn generate(ids: &Ids, thorough: bool) -> Vec<Input> {
       }
     }
   }
+  // ---- bursts: more reader submessages in one datagram than the pipe to the writers holds (100 in
+  // dp_event_loop; the simulators use the same capacity), from a matched and from an unknown reader
+  for &st in &writer_states {
+    for n in [99usize, 100, 101, 150, 400] {
+      for (sname, src) in [("matched reader", ids.puppet_reader_prefix), ("stranger", ids.stranger_prefix)] {
+        for last_is_nackfrag in [true, false] {
+          let mut nf = W::new(true);
+          nf.raw(&ids.puppet_reader_eid).raw(&ids.local_writer_eid).sn(1).u32(1).bitmap(2, None, 0xffff_ffff).i32(3);
+          let mut an = W::new(true);
+          an.raw(&ids.puppet_reader_eid).raw(&ids.local_writer_eid).sn(1).bitmap(1, None, 0xffff_ffff).i32(5);
+          let mut d = W::new(true);
+          d.raw(&ids.local_writer_prefix);
+          let mut subs = vec![sub(0x0e, 0, true, None, &d.b)];
+          for i in 0..n {
+            let nack = if i + 1 == n { last_is_nackfrag } else { i % 2 == 0 };
+            subs.push(if nack { sub(0x12, 0, true, None, &nf.b) } else { sub(0x06, 0, true, None, &an.b) });
+          }
+          v.push(Input { family: "burst", desc: format!("{n} alternating NACKFRAG / ACKNACK submessages in one datagram from a {sname}, the last one a {}", if last_is_nackfrag { "NACKFRAG" } else { "ACKNACK" }), state: st, datagrams: vec![msg(&src, &subs)] });
+        }
+      }
+    }
+  }
+  // ---- INFO_REPLY: locator counts in either byte order (a count that is small in one order and huge in the other)
+  for &st in &[0u8, 5] {
+    for le in [true, false] {
+      for count in [0u32, 1, 2, 3, 0x0100_0000, 0x0001_0000, 0x0000_0100, 0xff00_0000, 0x00ff_ffff, u32::MAX] {
+        for present in [0usize, 1, 2, 250] {
+          for multicast in [false, true] {
+            let mut w = W::new(le);
+            w.u32(count);
+            for i in 0..present {
+              w.i32(1).u32(7400 + i as u32).raw(&[0, 0, 0, 0, 0, 0, 0, 0, 0, 0, 0, 0, 127, 0, 0, 1]);
+            }
+            if multicast {
+              w.u32(count);
+              for i in 0..present.min(2) {
+                w.i32(1).u32(7500 + i as u32).raw(&[0, 0, 0, 0, 0, 0, 0, 0, 0, 0, 0, 0, 239, 255, 0, 1]);
+              }
+            }
+            let fl = u8::from(le) | if multicast { 2 } else { 0 };
+            v.push(Input { family: "info_reply", desc: format!("INFO_REPLY le={le} unicast locator count {count:#x} with {present} locators present, multicast list {multicast}, then a HEARTBEAT"), state: st, datagrams: vec![msg(&ids.writer_prefix, &[sub(0x0f, fl, le, None, &w.b), {
+              let mut hb = W::new(true);
+              hb.raw(&ids.reader_eid).raw(&ids.writer_eid).sn(1).sn(4).i32(60);
+              sub(0x07, 0, true, None, &hb.b)
+            }])] });
+          }
+        }
+      }
+    }
+  }
   // ---- contradicting sequences: a second DATAFRAG of the same sample with other geometry
   let geo: Vec<(u32, u16, u32, u16)> = {
     let mut g = vec![];
@@ -548,7 +598,7 @@ pub fn run(tier: &str) -> i32 {
   rep.set("distinct_nontrivial", json!(families.len()));
   rep.set("exhaustive", json!(skipped == 0));
   rep.set("inputs_skipped_after_fault_budget", json!(skipped));
-  rep.set("rule", json!("mixed-radix products of boundary alphabets of every submessage's fields (sequence numbers incl. i64::MIN/-1/0/window edges/2^32/i64::MAX, counts, bitmap numBits with exact/missing words, fragment numbers/sizes, sample sizes up to u32::MAX, octetsToInlineQos, all DATA flag bytes, inline-QoS parameter lengths, unknown submessage ids, wrong octetsToNextHeader) x protocol states (fresh, after DATA, half-assembled fragments, behind, after HEARTBEAT; writer with history, writer mid-repair) x source/reader-id variants; contradictory DATAFRAG pairs for one sample; two-step histories (a DATA or GAP-list bit far ahead, then a HEARTBEAT / GAP whose range reaches it); every truncation and 4 substitutions of every byte of 7 valid messages. Each input runs in a subprocess shard (2 GiB address space, 3 s watchdog, counting allocator); after each input well-behaved traffic must still be processed. distinct_nontrivial = distinct (family, state) classes"));
+  rep.set("rule", json!("mixed-radix products of boundary alphabets of every submessage's fields (sequence numbers incl. i64::MIN/-1/0/window edges/2^32/i64::MAX, counts, bitmap numBits with exact/missing words, fragment numbers/sizes, sample sizes up to u32::MAX, octetsToInlineQos, all DATA flag bytes, inline-QoS parameter lengths, unknown submessage ids, wrong octetsToNextHeader) x protocol states (fresh, after DATA, half-assembled fragments, behind, after HEARTBEAT; writer with history, writer mid-repair) x source/reader-id variants; contradictory DATAFRAG pairs for one sample; bursts of up to 400 reader submessages in one datagram (the pipe to the writers holds 100); INFO_REPLY locator counts in both byte orders; two-step histories (a DATA or GAP-list bit far ahead, then a HEARTBEAT / GAP whose range reaches it); every truncation and 4 substitutions of every byte of 7 valid messages. Each input runs in a subprocess shard (2 GiB address space, 3 s watchdog, counting allocator); after each input well-behaved traffic must still be processed. distinct_nontrivial = distinct (family, state) classes"));
   rep.assumptions = vec![
     "Datagrams enter through MessageReceiver::handle_received_packet of the receive side and of the writer side; armed repair timers are fired afterwards".into(),
     "Proportionality bounds: peak growth of live heap bytes <= 256 KiB + 64 x input bytes; time <= 0.25 s per input (debug-assertions and overflow checks on, as in the pinned suite)".into(),
